@@ -95,15 +95,6 @@ def r07_4(ctx):
                             smf.Ev('message', 'sysex', {'data': AList([], 'tuple')}, bad)], m, expect_write_error='ValueError')
         n += 3
     ctx.floor('R07.4', n, 21)
-    # nothing reaches the file before the whole track has been validated
-    wt = ctx.fn(ctx.p.func(smf.MF, 'write_track'))
-    wcalls = [c for c in astq.calls(wt.node) if isinstance(c.func, ast.Attribute) and c.func.attr == 'write'
-              and isinstance(c.func.value, ast.Name) and c.func.value.id == wt.params()[0]]
-    loops = [n_ for n_ in astq.walk_shallow(wt.node) if isinstance(n_, (ast.For, ast.While))]
-    inside = [c for c in wcalls if any(astq.contains_node(l, c) for l in loops)]
-    ctx.require(not inside, 'R07.4', 'write_track.atomic', ctx.where(wt),
-                'write_track writes to the file inside the message loop (a rejected message leaves a partial track)',
-                construct=f'{wt.qname}::writes-in-loop')
     # table agreement
     rt = ctx.f.table(codec.SPECS_MOD, 'REALTIME_TYPES')
     S = codec.specs(ctx)
@@ -112,15 +103,6 @@ def r07_4(ctx):
     ctx.require(set(rt) == want == reference.REALTIME_TYPE_NAMES, 'R07.4', 'REALTIME_TYPES', f'{mm.relpath}:1 REALTIME_TYPES',
                 f'REALTIME_TYPES is {sorted(rt)}; the real-time rows of SPECS (status >= 0xF8) are {sorted(want)}',
                 construct=f'{mm.relpath}::REALTIME_TYPES')
-    base = ctx.p.cls(codec.MSG_MOD, 'BaseMessage')
-    o, isrt = ctx.p.lookup_method(base, 'is_realtime')
-    if isrt is None:
-        raise AnalysisError('is_realtime not found')
-    ctx.fn(isrt)
-    rets = [x for x in astq.walk_shallow(isrt.node) if isinstance(x, ast.Return)]
-    ok = len(rets) == 1 and unparse(rets[0].value) == 'self.type in REALTIME_TYPES'
-    ctx.require(ok, 'R07.4', 'is_realtime', ctx.where(isrt), 'is_realtime is not "self.type in REALTIME_TYPES"',
-                construct=f'{isrt.qname}::shape')
 
 
 def _midifile_obj(ctx, type_, tracks, ticks):
